@@ -348,4 +348,3 @@ func expandRoutes(r *rand.Rand, V *model.Node, p []seg, wantLen int, f fault, ba
 	}
 	return out
 }
-
